@@ -193,7 +193,7 @@ class TimeDataFormat2(object):
         :rtype: str
         """
 
-        if (self.channel_specific_data >> 4) & 0x1:
+        if (self.channel_specific_data >> 4) & 0xF != 0:
             # ptp
             frac_sec = self.ptptime.nanoseconds
         else:
